@@ -376,11 +376,14 @@ class Module:
                 g["init"] = self._init(g["init"])
         self.functions = {}
         self.by_cname = {}
+        self.enum_types = d.get("enum_types", [])
+        self._recognise_enum_renames()
         self._recognise_field_renames()
         from . import build
-        if self.renamed_fields:
+        if self.renamed_fields or self.renamed_enums:
             rf = dict(getattr(build, "RENAMED_FIELDS", {}) or {})
             rf.update(self.renamed_fields)
+            rf.update({("enum", k): v for k, v in self.renamed_enums.items()})
             build.RENAMED_FIELDS = rf
         al = getattr(build, "ALIASES", {}) or {}
         self.renamed = {}
@@ -397,6 +400,28 @@ class Module:
                             l["fn"] = al[l["fn"]]
             self.functions[fn.name] = fn
             self.by_cname.setdefault(fn.cname, []).append(fn)
+
+    def _recognise_enum_renames(self):
+        """An enumeration of the reference tree (same source file, same number of enumerators with the same values in the same order) whose
+        enumerators carry new names while the reference names are gone: pure renames; the reference names are added to self.enums."""
+        import os
+        here = os.path.dirname(os.path.abspath(__file__))
+        try:
+            known = json.load(open(os.path.join(here, "known_enums.json")))
+        except Exception:
+            known = []
+        self.renamed_enums = {}
+        for ref in known:
+            if all(n in self.enums for n, _ in ref["elems"]):
+                continue
+            cands = [e for e in self.enum_types if os.path.basename(e.get("file", "")) == ref["file"] and [v for _, v in e["elems"]] == [v for _, v in ref["elems"]]]
+            cands = [e for e in cands if not any(n in {r for r, _ in ref["elems"]} for n, _ in e["elems"]) or e.get("name") == ref["name"]]
+            if len(cands) != 1:
+                continue
+            for (rn, rv), (cn, cv) in zip(ref["elems"], cands[0]["elems"]):
+                if rn not in self.enums and rn != cn:
+                    self.enums[rn] = rv
+                    self.renamed_enums[rn] = cn
 
     def _recognise_field_renames(self):
         """A struct of the reference tree whose layout (field count, offsets, types) is unchanged but where some field carries a new name
